@@ -387,12 +387,14 @@ func init() {
 	// ------------------------------------------------------------------ C03
 	register("C03", func(c *engine.Ctx) {
 		c.Rule = "random structured schemas of the tree fragment; a fully populated valid document; at every typed position (single type or [T,null], reached through properties, array items and $ref) the value is replaced by a value of every other JSON type (string, integer, non-integral number, boolean, array, object) and, where null is allowed, by null; plus typed positions built by composition (allOf / anyOf over object branches typed object, [object,null] or [null,object], inline or by $ref) with wrong-typed values for the whole position and for a member; plus two documents that define Base.id with different types and compose it by the same reference text (allOf / anyOf / plain, with and without $id), every ordered pair of five types; plus one schema (typed members at the top, nested, in array items) with every property name replaced by a word of each of 14 scripts (cased and caseless), documents renamed alike, judged by the reference verdict of the ASCII spelling. Verdict must equal the reference. Distinct = distinct (position type, substituted type, verdicts)."
-		c.Proofs([]string{"GJS.Props.C03", "GJS.Props.TreeRejects", "GJS.Proofs.Stable"}, []string{
+		c.Proofs([]string{"GJS.Props.C03", "GJS.Props.TreeRejects", "GJS.Proofs.Stable", "GJS.Props.StringFormats"}, []string{
+			"GJS.Props.StringFormats.stringType_top", "GJS.Props.StringFormats.stringType_other", "GJS.Props.StringFormats.formatted_string_rejects_non_string", "GJS.Props.StringFormats.formatted_string_rejects_non_string_ptr", "GJS.Props.StringFormats.table_is_the_source_table", "GJS.Props.StringFormats.table_entries_are_library_types",
 			"GJS.Props.Tree.tree_rejects_wrong_type", "GJS.Props.Tree.wrong_type_invalid",
 			"GJS.Proofs.decode_stable",
 			"GJS.Proofs.fails_not_accepted", "GJS.Props.C03.top_mismatch", "GJS.Props.C03.cert_wrong_type_le",
 			"GJS.Props.C03.cert_rejects_wrong_type", "GJS.Props.C03.null_into_pointer", "GJS.Props.C03.fraction_into_int_fails",
 		})
+		factsOf(c, "stringFormats")
 		subst := map[string]any{"string": "s", "integer": 7, "number": 1.5, "boolean": true, "array": []any{}, "object": M{}}
 		// typed positions built by composition: allOf / anyOf over object branches, plain or nullable in either
 		// spelling of the type list, inline or by $ref; wrong-typed values for the whole position and for a member
@@ -607,6 +609,7 @@ func init() {
 			}
 		}
 		breaks(c, res, map[string]bool{"run-json": true, "gen": true, "compile": true}, fails > 0)
+		c.FactsVerdict(fails > 0)
 		knownProgramFindings(c)
 	})
 
